@@ -10,9 +10,11 @@ import (
 	"os"
 	"strings"
 	"sync"
+	"time"
 
 	"github.com/nuetzliches/hookaido/verif/l0"
 	"github.com/nuetzliches/hookaido/verif/l1"
+	"github.com/nuetzliches/hookaido/verif/l2"
 )
 
 func main() {
@@ -32,6 +34,8 @@ func main() {
 		err = l1Conc(os.Args[2:])
 	case "l1-nonce":
 		err = l1Nonce(os.Args[2:])
+	case "crash-run":
+		err = crashRun(os.Args[2:])
 	case "reload-pilot":
 		err = l1.ReloadPilot(os.Stdout, scratchDir(""))
 	case "reload-run":
@@ -533,5 +537,113 @@ func reloadRun(args []string) error {
 		}
 	}
 	fmt.Printf("{\"jobs\":%d}\n", n)
+	return nil
+}
+
+
+// crash-run: jobs (ndjson: {"name","ops","crash","kill_at_ms","hitlog"}) -> kill-and-restart runs of the real binary.
+func crashRun(args []string) error {
+	fs := flag.NewFlagSet("crash-run", flag.ExitOnError)
+	bin := fs.String("bin", "", "hookaido binary built with -tags verif")
+	in := fs.String("jobs", "jobs.ndjson", "jobs")
+	out := fs.String("out", "crash-trace", "trace output")
+	hits := fs.String("hits", "", "write label hit counts of hitlog jobs here (ndjson)")
+	scratch := fs.String("scratch", "", "scratch dir (on a real file system)")
+	par := fs.Int("par", 8, "parallel runs")
+	_ = fs.Parse(args)
+	sd := *scratch
+	if sd == "" {
+		d, err := os.MkdirTemp("/var/tmp", "hkv-crash-")
+		if err != nil {
+			return err
+		}
+		sd = d
+		defer os.RemoveAll(sd)
+	}
+	type job struct {
+		Name   string      `json:"name"`
+		Ops    []l2.WorkOp `json:"ops"`
+		Crash  string      `json:"crash"`
+		KillAt int         `json:"kill_at_ms"`
+		HitLog bool        `json:"hitlog"`
+	}
+	var jobs []job
+	inf, err := os.Open(*in)
+	if err != nil {
+		return err
+	}
+	sc := bufio.NewScanner(inf)
+	sc.Buffer(make([]byte, 1<<20), 1<<26)
+	for sc.Scan() {
+		if len(sc.Bytes()) == 0 {
+			continue
+		}
+		var j job
+		if err := json.Unmarshal(sc.Bytes(), &j); err != nil {
+			return err
+		}
+		jobs = append(jobs, j)
+	}
+	inf.Close()
+	type result struct {
+		events []map[string]any
+		hits   map[string]int
+		err    error
+	}
+	results := make([]result, len(jobs))
+	sem := make(chan struct{}, *par)
+	var wg sync.WaitGroup
+	for i := range jobs {
+		wg.Add(1)
+		sem <- struct{}{}
+		go func(i int) {
+			defer wg.Done()
+			defer func() { <-sem }()
+			j := jobs[i]
+			dir, err := os.MkdirTemp(sd, "run-")
+			if err != nil {
+				results[i].err = err
+				return
+			}
+			defer os.RemoveAll(dir)
+			r := &l2.Run{Bin: *bin, Dir: dir, Name: j.Name, Ops: j.Ops, Crash: j.Crash, KillAt: time.Duration(j.KillAt) * time.Millisecond, HitLog: j.HitLog}
+			ev, err := r.Execute()
+			results[i] = result{events: ev, err: err}
+			if j.HitLog {
+				results[i].hits = l2.Hits(dir)
+			}
+		}(i)
+	}
+	wg.Wait()
+	f, err := os.Create(*out)
+	if err != nil {
+		return err
+	}
+	defer f.Close()
+	enc := json.NewEncoder(f)
+	var hf *os.File
+	if *hits != "" {
+		hf, err = os.Create(*hits)
+		if err != nil {
+			return err
+		}
+		defer hf.Close()
+	}
+	nerr := 0
+	for i, r := range results {
+		if r.err != nil {
+			nerr++
+			fmt.Fprintln(os.Stderr, "crash-run:", r.err)
+			continue
+		}
+		for _, e := range r.events {
+			_ = enc.Encode(e)
+		}
+		if hf != nil && r.hits != nil {
+			b, _ := json.Marshal(map[string]any{"name": jobs[i].Name, "hits": r.hits})
+			hf.Write(append(b, '\n'))
+		}
+	}
+	fmt.Printf("{\"runs\":%d,\"errors\":%d}\n", len(jobs), nerr)
 	return nil
 }
